@@ -288,3 +288,40 @@ func modelEgWait(x *Exec, cs *callSite) *Val {
 	k := egKey(x, cs)
 	return &Val{T: x.sc.Define("eg_wait", Select(egErrs(x, cs.st), k)), Ty: errorType}
 }
+
+// wctx: typed accessors over context values. Getters are deterministic
+// functions of the context; WithX(ctx, v) yields a context whose X is v and
+// whose other values are those of ctx (assumed contract of context.WithValue
+// with distinct keys, which wctx/ctx.go uses).
+var wctxGetters = map[string]Sort{"ChainID": SBV64, "IGName": SStr, "SrcName": SStr, "Version": SStr, "SrcHost": SStr}
+
+func (x *Exec) wctxDecl() {
+	var b strings.Builder
+	for _, g := range []string{"ChainID", "IGName", "SrcHost", "SrcName", "Version"} {
+		fmt.Fprintf(&b, "(declare-fun wctx_%s (Iface) %s)\n", g, wctxGetters[g])
+	}
+	x.sc.Decl("wctx", b.String())
+}
+
+func (x *Exec) wctxModel(cs *callSite, name string) *Val {
+	x.wctxDecl()
+	x.assumeNote("wctx accessors: getters are functions of the context; WithX sets X and preserves the other values (context.WithValue with distinct keys)")
+	st := cs.st
+	if srt, ok := wctxGetters[name]; ok {
+		return &Val{T: App(srt, "wctx_"+name, x.term(cs.args[0])), Ty: cs.res}
+	}
+	if strings.HasPrefix(name, "With") {
+		nctx := x.sc.Fresh("ctx", SIface)
+		x.assume(st, Not(Eq(nctx, Term{"inil", SIface})))
+		set := strings.TrimPrefix(name, "With")
+		for g, srt := range wctxGetters {
+			if g == set && len(cs.args) > 1 {
+				x.assume(st, Eq(App(srt, "wctx_"+g, nctx), x.term(cs.args[1])))
+			} else {
+				x.assume(st, Eq(App(srt, "wctx_"+g, nctx), App(srt, "wctx_"+g, x.term(cs.args[0]))))
+			}
+		}
+		return &Val{T: nctx, Ty: cs.res}
+	}
+	return x.freshResult(st, "wctx", cs.res)
+}
